@@ -81,8 +81,7 @@ struct World::Task {
     enum { READY, BLOCKED, DONE } state = READY;
     bool started = false;
     std::function<bool()> pred;
-    uint64_t poll_epoch = 0;
-    long failed_polls = 0;
+    long failed_polls = 0;   // consecutive unsuccessful polls since the rank last did or received anything
     long stall_until = 0;
     long stall_countdown = -1;
     double vt = 0, speed = 1, prio = 0;
@@ -350,10 +349,17 @@ void World::block_until(const std::function<bool()>& pred, int evkind, int a, in
 
 void World::failed_poll() {
     if (g_rank < 0) return;
-    Task& t = *tasks_[g_rank];
-    if (t.poll_epoch != epoch_) { t.poll_epoch = epoch_; t.failed_polls = 0; }
-    t.failed_polls++;
+    tasks_[g_rank]->failed_polls++;
 }
+
+void World::progress() {
+    ++epoch_;
+    if (g_rank >= 0) tasks_[g_rank]->failed_polls = 0;
+}
+
+// something addressed to world rank w happened (match on one of its requests, arrival in its unexpected queue):
+// only such an event can turn one of its polls from failure to success
+void World::poke(int w) { if (w >= 0 && w < (int)tasks_.size()) tasks_[w]->failed_polls = 0; }
 
 static const int WORK_TABLE[16] = {1, 1, 2, 1, 3, 2, 5, 1, 8, 13, 1, 21, 34, 2, 55, 89};
 
@@ -423,7 +429,7 @@ Result World::run(const std::function<void(int)>& fn) {
             any_live = true;
             if (t.state == Task::READY) {
                 cands.push_back(Cand{0, r, {}, std::max(t.vt, 0.0), t.prio});
-                if (!(t.poll_epoch == epoch_ && t.failed_polls >= N_HANG)) all_stuck = false;
+                if (t.failed_polls < N_HANG) all_stuck = false;
             } else if (t.pred && t.pred()) {
                 cands.push_back(Cand{0, r, {}, std::max(t.vt, now_), t.prio});
                 all_stuck = false;
@@ -447,7 +453,10 @@ Result World::run(const std::function<void(int)>& fn) {
             set_verdict("hang", os.str());
             break;
         }
-        if (st_.steps >= o_.step_cap) { set_verdict("step-budget", "step cap " + std::to_string(o_.step_cap) + " reached"); break; }
+        if ((long)epoch_ >= o_.step_cap || st_.steps >= 10 * o_.step_cap) {
+            set_verdict("step-budget", "budget of " + std::to_string(o_.step_cap) + " progress events / " + std::to_string(10 * o_.step_cap) + " scheduling steps exhausted");
+            break;
+        }
 
         // filter: stalled and idle-polling ranks are not offered while something else can run
         filt.clear();
@@ -455,7 +464,7 @@ Result World::run(const std::function<void(int)>& fn) {
             if (c.type == 0) {
                 Task& t = *tasks_[c.idx];
                 bool stalled = t.stall_until > st_.steps;
-                bool demoted = t.state == Task::READY && t.poll_epoch == epoch_ && t.failed_polls >= N_DEMOTE;
+                bool demoted = t.state == Task::READY && t.failed_polls >= N_DEMOTE;
                 if (stalled || demoted) continue;
             }
             filt.push_back(c);
@@ -563,6 +572,8 @@ void World::complete_match(const ReqPtr& r, Msg& m) {
     r->st.source = m.src; r->st.tag = m.tag; r->st.bytes = (int)m.bytes.size();
     r->state = ReqState::MATCHED;
     *m.matched = true;
+    poke(r->owner);
+    poke(ctxs_[m.ctx]->members[m.src]);
     st_.matches++;
     if (r->src < 0 || r->tag < 0) st_.wildcard_matches++;
     add_event(r->owner, EV_MATCH, m.ctx, m.src, m.tag, (int)r->id);
@@ -591,6 +602,7 @@ void World::arrive_at(Msg&& m) {
     int w = ctxs_[m.ctx]->members[m.dst];
     st_.unexpected++;
     unexpected_[w].push_back(std::move(m));
+    poke(w);
     progress();
 }
 
